@@ -166,6 +166,7 @@ func (acl *ACL) SetUser(cmd []string) error {
 			if err := user.UpdateUser(cmd); err != nil {
 				return err
 			} else {
+				user.Normalise()
 				acl.CompileGlobs()
 				return nil
 			}
@@ -204,13 +205,14 @@ func (acl *ACL) DeleteUser(_ context.Context, usernames []string) error {
 			}
 		}
 		// Skip if the current username was not found in the ACL
-		if user == nil {
+		if user == nil || user.Username != username {
 			continue
 		}
 		// Terminate every connection attached to this user
 		for connRef, connection := range acl.Connections {
 			if connection.User.Username == user.Username {
 				_ = (*connRef).SetReadDeadline(time.Now().Add(-1 * time.Second))
+				acl.Connections[connRef] = Connection{Authenticated: false, User: connection.User}
 			}
 		}
 		// Delete the user from the ACL
@@ -318,6 +320,9 @@ func (acl *ACL) AuthorizeConnection(conn *net.Conn, cmd []string, command intern
 		if err != nil {
 			return err
 		}
+		channels = keys.Channels
+		readKeys = keys.ReadKeys
+		writeKeys = keys.WriteKeys
 	}
 
 	// Skip ack
@@ -346,6 +351,11 @@ func (acl *ACL) AuthorizeConnection(conn *net.Conn, cmd []string, command intern
 	// 1. Check if password is required and if the user is authenticated
 	if acl.Config.RequirePass && !connection.Authenticated {
 		return errors.New("user must be authenticated")
+	}
+
+	// The user must (still) be enabled.
+	if !connection.User.Enabled {
+		return fmt.Errorf("user %s is disabled", connection.User.Username)
 	}
 
 	var notAllowed []string
@@ -420,35 +430,27 @@ func (acl *ACL) AuthorizeConnection(conn *net.Conn, cmd []string, command intern
 			return errors.New("not authorised to access any keys")
 		}
 
-		// 8. Check if readKeys are in IncludedReadKeys
-		if len(readKeys) > 0 && !slices.ContainsFunc(readKeys, func(key string) bool {
-			return slices.ContainsFunc(connection.User.IncludedReadKeys, func(readKeyGlob string) bool {
-				if acl.GlobPatterns[readKeyGlob].Match(key) {
-					return true
-				}
-				if !slices.Contains(notAllowed, fmt.Sprintf("%s~%s", "%R", key)) {
-					notAllowed = append(notAllowed, fmt.Sprintf("%s~%s", "%R", key))
-				}
-				return false
-			})
-		}) {
-			if len(notAllowed) > 0 {
-				return fmt.Errorf("not authorised to access the following read keys: %+v", notAllowed)
+		// 8. Check if every read key is in IncludedReadKeys
+		for _, key := range readKeys {
+			if !slices.ContainsFunc(connection.User.IncludedReadKeys, func(readKeyGlob string) bool {
+				return acl.GlobPatterns[readKeyGlob].Match(key)
+			}) {
+				notAllowed = append(notAllowed, fmt.Sprintf("%s~%s", "%R", key))
 			}
 		}
+		if len(notAllowed) > 0 {
+			return fmt.Errorf("not authorised to access the following read keys: %+v", notAllowed)
+		}
 
-		// 9. Check if write keys are in IncludedWriteKeys
-		if len(writeKeys) > 0 && !slices.ContainsFunc(writeKeys, func(key string) bool {
-			return slices.ContainsFunc(connection.User.IncludedWriteKeys, func(writeKeyGlob string) bool {
-				if acl.GlobPatterns[writeKeyGlob].Match(key) {
-					return true
-				}
-				if !slices.Contains(notAllowed, fmt.Sprintf("%s~%s", "%W", key)) {
-					notAllowed = append(notAllowed, fmt.Sprintf("%s~%s", "%W", key))
-				}
-				return false
-			})
-		}) {
+		// 9. Check if every write key is in IncludedWriteKeys
+		for _, key := range writeKeys {
+			if !slices.ContainsFunc(connection.User.IncludedWriteKeys, func(writeKeyGlob string) bool {
+				return acl.GlobPatterns[writeKeyGlob].Match(key)
+			}) {
+				notAllowed = append(notAllowed, fmt.Sprintf("%s~%s", "%W", key))
+			}
+		}
+		if len(notAllowed) > 0 {
 			return fmt.Errorf("not authorised to access the following write keys: %+v", notAllowed)
 		}
 	}
